@@ -203,7 +203,7 @@ func c12(c *core.Ctx) {
 	}
 	c.Rule("C12.key", "every access to SecureChannel.chunks is keyed by the RequestID of the decoded sequence header (partial messages of different requests never mix)", 5)
 	c.Rule("C12.release", "every path of Receive from taking chunksMu to a return (abort, too-many-chunks, final chunk) deletes the request's entry from SecureChannel.chunks; only the intermediate-chunk path keeps it and loops", 1)
-	c.Rule("C12.append", "an intermediate chunk is appended after the chunks already buffered for its request id, and the final chunk after all buffered ones (arrival order is preserved)", 2)
+	c.Rule("C12.append", "an intermediate chunk is appended after the chunks already buffered for its request id, and the final chunk after all buffered ones (arrival order is preserved)", 1)
 	c.Rule("C12.sentinel", "no received SequenceNumber is compared for equality with a loop-carried variable whose first value is a constant (0 is a legal sequence number after wrap; a zero-initialised 'previous number' drops the first chunk of a multi-chunk message)", 1)
 	c.Rule("C12.order", "mergeChunks concatenates chunk.Data of the slice elements in index order (forward range), and returns the single chunk's own data for one chunk", 1)
 
